@@ -1,5 +1,5 @@
 (* Property C16 -- clone writes no file but the output; compress leaves only the archive. *)
-From Bita Require Import Model.Base Gen.Generated Model.Cmd Proofs.CmdProofs.
+From Bita Require Import Model.Base Gen.Generated Model.Cmd Proofs.CmdEffects.
 
 Theorem C16_clone_effects : forall env,
   let r := clone_cmd_model env in
